@@ -49,6 +49,23 @@ theorem chanParam_spec (p : Arr α) (C k : Nat) (hp : p.shape = [C]) :
     rw [h3]
     rfl
 
+/-- for a rank-1 parameter `[C]`, `moveaxis(atleast_nd(p, k+1), −1, 0)` (batch_norm) is `moveaxis(atleast_nd(p, k+1), −1, −(k+1))`:
+    `atleast_nd` gives exactly `k+1` axes -/
+theorem chanParamFront_eq (p : Arr α) (C k : Nat) (hp : p.shape = [C]) :
+    chanParamFront p (k + 1) = chanParam p (k + 1) := by
+  have hsh : (lift p).shape = [C] := hp
+  unfold chanParamFront chanParam atleastNd
+  rw [hsh]
+  unfold Linalg.reshape
+  split
+  · simp
+  · rfl
+
+theorem batchNormNd_eq (k : Nat) : batchNormNd (2 + k) = k + 1 := by
+  unfold batchNormNd
+  rw [if_pos (by omega)]
+  omega
+
 theorem bshape_chanN (N C : Nat) (sp : Shape) (hp : Pos ([N, C] ++ sp)) :
     broadcastShape2 ([N, C] ++ sp) (C :: List.replicate sp.length 1) = some ([N, C] ++ sp) := by
   unfold broadcastShape2
